@@ -16,6 +16,8 @@ use std::sync::{Arc, Mutex};
 use std::time::Instant;
 
 pub const TIMEOUT_S: u64 = 120;
+static CRASHES: AtomicUsize = AtomicUsize::new(0);
+static CRASHES_MID_RUN: AtomicUsize = AtomicUsize::new(0);
 
 #[derive(Clone, Debug, PartialEq, Eq)]
 pub struct Obs {
@@ -49,8 +51,9 @@ fn scrub(bytes: Vec<u8>, out_dir: &Path) -> Vec<u8> {
 
 /// Leftovers of an earlier run for another claim: files of the names this command will write, with longer contents.
 pub fn dirty(out_dir: &Path, names: &[(String, Vec<u8>)]) {
-    for (n, c) in names {
-        let mut stale = b"% left behind by an earlier run\n".to_vec();
+    for (i, (n, c)) in names.iter().enumerate() {
+        // every other file looks like a genuine problem file of an earlier run (same preamble), only longer
+        let mut stale = if i % 2 == 0 { b"% left behind by an earlier run\n".to_vec() } else { vec![] };
         stale.extend_from_slice(c);
         stale.extend_from_slice(b"tff(stale_tail, axiom, $false).\n% end of stale file\n");
         let _ = fs::write(out_dir.join(n), stale);
@@ -63,6 +66,13 @@ pub fn observe(bins: &Binaries, cmd: &Cmd, in_dir: &Path, out_dir: &Path, env: &
     if cmd.stdin_file.is_some() {
         // the file is not named on the command line
         args.retain(|a| !a.starts_with(&*in_dir.to_string_lossy()));
+    }
+    if let (Some(us), true) = (env.crash_first_us, cmd.uses_out) {
+        // crash-restart: an earlier run of the very same command died at an arbitrary point
+        if let Ok(true) = e2::crash_anthem(bins, &args, in_dir, env, us) {
+            CRASHES_MID_RUN.fetch_add(1, Ordering::Relaxed);
+        }
+        CRASHES.fetch_add(1, Ordering::Relaxed);
     }
     let po: ProcOut = match e2::run_anthem(bins, &args, in_dir, stdin_data.as_deref(), env, &[], TIMEOUT_S) {
         Ok(p) => p,
@@ -298,6 +308,7 @@ fn count_dims(t: &mut Tally, e: &Env) {
     b("home_user_rust_vars", !e.extra_vars.is_empty());
     b("other_working_directory", e.other_cwd);
     b("output_directory_with_stale_files", e.dirty_out);
+    b("crash_restart_on_same_output_directory", e.crash_first_us.is_some());
     b("native_no_interposer", !e.preload);
 }
 
@@ -608,6 +619,7 @@ pub fn main(args: &Args) {
             "environments_per_command": envs + 1,
             "environment_dimensions_exercised_runs": tally.env_dims,
             "interposer_calls_answered": e2::interposer_totals(),
+            "crash_restart": {"earlier_run_killed_before_the_observed_run": CRASHES.load(Ordering::Relaxed), "of_which_killed_while_still_running": CRASHES_MID_RUN.load(Ordering::Relaxed)},
             "concurrent_same_command_pairs": tally.concurrent_pairs,
             "same_process_repetitions_via_hooks_on_library": tally.inproc_pairs,
             "fixpoint_side_invariant": {"results_resimplified_unchanged": tally.idempotence_checked, "skipped_result_not_reparsable": tally.idempotence_skipped_unparsable, "wall_budget_s_per_run": TIMEOUT_S, "note": "first sentence of C18 is only asserted on the workload's own formulas; it is not searched"},
